@@ -12,39 +12,59 @@ OUTSIDE = ('more threads / operations than stated; capacities other than 1, 2 an
            '(the non-atomic slot read/write is executed together with the preceding atomic step); payload types other than '
            'int64_t, a raw pointer and a 16-byte POD')
 
+BASETXT = {0: 'top_/bottom_ start at 0', 1: 'top_/bottom_ start at an arbitrary common value in [-2^62, 2^62]',
+           2: 'top_/bottom_ start at -3 (counters cross 0, ring index of negative counters)'}
+
 def _seq(name, cap, payload, ops, tops, base=1, tiers=('quick', 'thorough')):
     return {'name': name, 'src': 'cl_seq.cpp', 'engine': 'cbmc',
-            'defs': {'VF_CAP': cap, 'VF_PAYLOAD': payload, 'VF_OPS': ops, 'VF_BASE': base},
+            'defs': {'VF_CAP': cap, 'VF_PAYLOAD': payload, 'VF_OPS': ops, 'VF_BASE': base, 'VF_BASEVAL': -3},
             'unwind': max(ops, cap + 1) + 1, 'timeout': 1500, 'tiers': list(tiers),
-            'bounds': 'capacity %d; payload %s; %d (thorough: %d) symbolic owner/stealer operations from 5 kinds '
+            'bounds': ('capacity %d; payload %s; %d (thorough: %d) symbolic owner/stealer operations from 5 kinds '
                       '(try_push, try_pop, try_pop_into, try_steal, try_steal_into) on one thread, then drain by pop or by steal; '
-                      'top_/bottom_ start at an arbitrary common value' % (cap, ['int64_t', 'pointer', '16-byte POD'][payload], ops, tops),
-            'thorough': {'defs': {'VF_CAP': cap, 'VF_PAYLOAD': payload, 'VF_OPS': tops, 'VF_BASE': base},
+                      + BASETXT[base]) % (cap, ['int64_t', 'pointer', '16-byte POD'][payload], ops, tops),
+            'thorough': {'defs': {'VF_CAP': cap, 'VF_PAYLOAD': payload, 'VF_OPS': tops, 'VF_BASE': base, 'VF_BASEVAL': -3},
                          'unwind': max(tops, cap + 1) + 1}}
 
-def _conc(name, cap, nsteal, ops, into, steps, tiers, osteal=0, nsteals=2, extra=None):
-    d = {'name': name, 'src': 'cl_conc.cpp', 'engine': 'cbmc-seq', 'steps': steps, 'spin_loops': True,
-         'defs': {'VF_CAP': cap, 'VF_STEALERS': nsteal, 'VF_OPS': ops, 'VF_INTO': into, 'VF_OWNER_STEAL': osteal,
-                  'VF_NSTEALS': nsteals},
-         'unwind': max(ops, cap + 1, 4) + 1, 'nthreads': nsteal + 1, 'timeout': 1700, 'tiers': list(tiers),
-         'bounds': 'capacity %d; owner (thread 0): %d symbolic operations (push unique tag | %s%s), %d stealer thread(s) with %d x %s each, '
-                   'every interleaving of the atomic operations with <= %d execution segments per thread, then quiescent drain by the owner'
-                   % (cap, ops, 'try_pop_into' if into else 'try_pop', ' | owner steal' if osteal else '', nsteal, nsteals,
-                      'try_steal_into' if into else 'try_steal', steps)}
-    if extra:
-        d.update(extra)
+KIND = {0: 'push', 1: 'pop', 2: 'owner-steal', 9: 'symbolic'}
+
+def _conc(name, cap, nsteal, hist, into, steps, tiers, osteal=0, nsteals=2, tsteps=None, T='int64_t'):
+    """hist: 'sym<N>' = N symbolic owner operations (loop form) or a tuple of fixed kinds (0 push, 1 pop, 9 symbolic)"""
+    defs = {'VF_CAP': cap, 'VF_STEALERS': nsteal, 'VF_INTO': into, 'VF_OWNER_STEAL': osteal, 'VF_NSTEALS': nsteals, 'VF_T': T}
+    if isinstance(hist, str):
+        ops = int(hist[3:])
+        defs.update({'VF_OPS': ops, 'VF_HIST_LOOP': 1})
+        htxt = '%d symbolic operations (push unique tag | %s%s)' % (ops, 'try_pop_into' if into else 'try_pop', ' | owner steal' if osteal else '')
+        unwind = max(ops, cap + 1, nsteals) + 1
+    else:
+        ops = len(hist)
+        defs.update({'VF_OPS': ops, 'VF_HIST_LOOP': 0})
+        for i in range(4):
+            defs['VF_H%d' % i] = hist[i] if i < ops else 1
+        htxt = 'history ' + ', '.join(KIND[k] for k in hist) + ' (push = try_push of a unique tag, pop = %s)' % ('try_pop_into' if into else 'try_pop')
+        unwind = max(ops, cap + 1, nsteals) + 1
+    d = {'name': name, 'src': 'cl_conc.cpp', 'engine': 'cbmc-seq', 'steps': steps, 'spin_loops': False,
+         'defs': defs, 'unwind': unwind, 'nthreads': nsteal + 1, 'timeout': 1700, 'tiers': list(tiers),
+         'bounds': 'capacity %d; payload %s; owner (thread 0): %s; %d stealer thread(s) with %d x %s each; every interleaving of the atomic '
+                   'operations that needs <= %d%s scheduling rounds (one execution segment per thread and round); then quiescent drain by the owner'
+                   % (cap, T, htxt, nsteal, nsteals, 'try_steal_into' if into else 'try_steal', steps,
+                      (' (thorough: %d)' % tsteps) if tsteps else '')}
+    if tsteps:
+        d['thorough'] = {'steps': tsteps}
     return d
 
+PPpp = (0, 0, 1, 1)
 INSTANCES = [
-    _seq('seq_cap2_i64', 2, 0, 5, 7),
-    _seq('seq_cap4_ptr', 4, 1, 6, 8),
-    _seq('seq_cap1_i64', 1, 0, 4, 6),
-    _seq('seq_cap4_pod', 4, 2, 6, 8, tiers=('thorough',)),
-    _seq('seq_cap2_ptr', 2, 1, 6, 8, tiers=('thorough',)),
-    _conc('conc_cap2_s1', 2, 1, 4, 0, 4, ('quick', 'thorough')),
-    _conc('conc_cap2_s1_into', 2, 1, 4, 1, 4, ('quick', 'thorough')),
-    _conc('conc_cap2_s2', 2, 2, 4, 0, 4, ('thorough',)),
-    _conc('conc_cap4_s2_into', 4, 2, 4, 1, 4, ('thorough',)),
-    _conc('conc_cap1_s2', 1, 2, 4, 0, 4, ('thorough',)),
-    _conc('conc_cap2_s1_ownersteal', 2, 1, 4, 0, 4, ('thorough',), osteal=1),
+    _seq('seq_cap2_i64', 2, 0, 5, 7, base=2),
+    _seq('seq_cap4_ptr', 4, 1, 5, 7, base=0),
+    _seq('seq_cap1_i64', 1, 0, 4, 6, base=2),
+    _seq('seq_cap4_pod', 4, 2, 6, 6, base=2, tiers=('thorough',)),
+    _seq('seq_cap2_sym_base', 2, 0, 4, 5, base=1, tiers=('thorough',)),
+    # the classic last-element race: owner push, push, pop, pop  vs.  stealer steal, steal
+    _conc('conc_cap2_s1_race', 2, 1, PPpp, 0, 3, ('quick', 'thorough'), tsteps=4),
+    _conc('conc_cap2_s1_sym', 2, 1, 'sym4', 0, 3, ('thorough',)),
+    _conc('conc_cap2_s1_into_sym', 2, 1, 'sym4', 1, 3, ('thorough',)),
+    _conc('conc_cap2_s2_race', 2, 2, PPpp, 0, 3, ('thorough',)),
+    _conc('conc_cap4_s2_into', 4, 2, (0, 0, 9, 1), 1, 3, ('thorough',)),
+    _conc('conc_cap1_s2', 1, 2, 'sym3', 0, 3, ('thorough',)),
+    _conc('conc_cap2_s1_ownersteal', 2, 1, (0, 0, 2, 1), 0, 3, ('thorough',), osteal=1),
 ]
